@@ -117,6 +117,10 @@ func (this *Node) walk(topic format.Topic, iterator NodeIterator) {
 	topic, token := topic.Next()
 	if token == "" {
 		iterator(this.Data)
+		// "a/#" also matches its parent level "a"
+		if n, ok := this.Children[MWC]; ok {
+			iterator(n.Data)
+		}
 		return
 	}
 
